@@ -15,7 +15,7 @@ const HEALTH_CHECK_PATH: &str = "/health-check";
 const METRICS_PATH: &str = "/metrics";
 
 pub(crate) struct Metrics {
-    _registry: prometheus::Registry,
+    registry: prometheus::Registry,
     client_sessions: prometheus::IntGaugeVec,
     inbound_traffic: prometheus::IntCounterVec,
     outbound_traffic: prometheus::IntCounterVec,
@@ -73,7 +73,7 @@ impl Metrics {
                 registry,
             )
             .map_err(prometheus_to_io_error)?,
-            _registry: registry,
+            registry,
         }))
     }
 
@@ -104,7 +104,10 @@ impl Metrics {
     fn collect(&self) -> (String, Bytes) {
         let encoder = prometheus::TextEncoder::new();
 
-        let metric_families = prometheus::gather();
+        // the series above live in the private registry; the default one carries
+        // the process metrics
+        let mut metric_families = self.registry.gather();
+        metric_families.extend(prometheus::gather());
         let mut buffer = vec![];
         encoder.encode(&metric_families, &mut buffer).unwrap();
 
